@@ -529,6 +529,18 @@ def gen_join_frames(rng, ts, stats, missing=None, big=False, str_dtype=None, non
         stats.hit('frames.self_join.other_column')
         return L, L, lkey, lkey, lname, 'alias'
     R = make_frame(rng, rv, attr=rname, key=rkey, str_dtype=str_dtype)
+    if rng.random() < 0.15:
+        # a table keyed by the very column that is joined / matched (a reference list keyed by the name): possible when
+        # its values are distinct and none is missing; on one side or on both
+        def keyable(T, a):
+            return len(T) > 0 and str(T[a].dtype) == 'object' and not T[a].isnull().any() and T[a].is_unique and all(isinstance(x, str) for x in T[a])
+        side = rng.choice(['L', 'L', 'R', 'both'])
+        if side in ('L', 'both') and keyable(L, lname):
+            lkey = lname
+            stats.hit('frames.key_is_join_attr.left')
+        if side in ('R', 'both') and keyable(R, rname):
+            rkey = rname
+            stats.hit('frames.key_is_join_attr.right')
     return L, R, lkey, rkey, lname, rname
 
 
@@ -905,7 +917,7 @@ def suite_apply_matcher(rng, n, stats):
         if rng.random() < 0.06 and len(L) and not L[la].isnull().any() and L[la].is_unique and str(L[la].dtype) == 'object':
             lk = la             # the match attribute is also the key attribute (unique, no missing value)
             stats.hit('apply_matcher.match_attr_is_key')
-        numeric_match = (not use_tok) and lk != la and L is not R and rng.random() < 0.25
+        numeric_match = (not use_tok) and lk != la and rk != ra and L is not R and rng.random() < 0.25
         if numeric_match:
             # without a tokenizer the match attributes may be of any type: years compared by |a - b| (C05: "the two referenced values")
             L, R = L.copy(), R.copy()
